@@ -45,6 +45,29 @@ def perms(n):
     return _PERMS[n]
 
 
+_SUBSET = {}
+
+
+def perm_subset(n):
+    """A fixed, stated subset of the n! orders for menus beyond PERM_LIMIT: every rotation of the identity and of the
+    reversal, evens-then-odds and its reverse (2n+2 orders).  NOT exhaustive over answers; runs that use it say so."""
+    if n not in _SUBSET:
+        ident = list(range(n))
+        out = []
+        for base in (ident, ident[::-1]):
+            for r in range(n):
+                out.append(tuple(base[r:] + base[:r]))
+        eo = ident[::2] + ident[1::2]
+        out += [tuple(eo), tuple(eo[::-1])]
+        seen, uniq = set(), []
+        for p in out:
+            if p not in seen:
+                seen.add(p)
+                uniq.append(p)
+        _SUBSET[n] = uniq
+    return _SUBSET[n]
+
+
 PERM_LIMIT = 8
 
 
@@ -93,8 +116,12 @@ class ScriptedRandomState(np.random.RandomState):
             base = np.asarray(x)
             n = len(base)
         if n > PERM_LIMIT:
-            raise Unmodelled('permutation(%d) exceeds the menu bound %d!' % (n, PERM_LIMIT))
-        ps = perms(n)
+            if not getattr(self._ex, 'allow_perm_subset', False):
+                raise Unmodelled('permutation(%d) exceeds the menu bound %d!' % (n, PERM_LIMIT))
+            ps = perm_subset(n)
+            self._ex.perm_subset_used = getattr(self._ex, 'perm_subset_used', 0) + 1
+        else:
+            ps = perms(n)
         idx = self._ex.choice('permutation', len(ps))
         p = np.array(ps[idx], dtype=int)
         out = p if base is None else base[p]
